@@ -24,7 +24,8 @@ META = {
             "the three match tables, the struct field types and the lib-data function are re-extracted from the source "
             "on every run and proved equal to the tables. Font::load, validate and save are run on thousands of "
             "generated trees (every attribute alone and in combination with distinct values, codes -5..300 "
-            "exhaustively, width names and near misses, numeric classes) and compared field by field with the model.",
+            "exhaustively, width names and near misses, numeric classes; every tree with a lib.plist also under five other "
+            "DataRequests, the result proved and observed to be independent of the request) and compared field by field with the model.",
     "note": "Trusted: Coq kernel + VM; lib/anchors_c14.py (regex translator); the harness's tree writer and field dump; "
             "plist/serde (typed readers are modelled and exercised, not proved). 'passes validation' is a theorem about C13's "
             "validator model fi_validate / fi_spec on the projection of the converted info (C14_result_v3_valid), 'can be saved' "
